@@ -12,6 +12,11 @@ CHECKS = {
          'Every wallet of <=3 (quick) / <=4 (thorough) outputs over a 5-value alphabet x every critical amount (each subset sum minus each reachable fee minus 0..n^2+1, plus numeric-limit values) x change counts {0..4} x max_outputs {0,1,2,3,500} x both strategies x amount-includes-fee, and every assignment of 10 eligibility classes to 3 outputs x min_conf {0,1,10}, is run through the real select_send_tx on a real LMDB wallet; a sub-grid runs through owner::init_send_tx (plain, late-lock+finalize, estimate) and process_invoice_tx. Oracle: inputs are spendable records of the account, sum(inputs) = amount + fee + change, fee >= network minimum, no panic, no livelock (backend call budget), nothing persisted on error.',
          'Fee base 1 so that fees are commensurate with the value alphabet; API paths use a stub node that agrees with the records as written. Small-scope hypothesis beyond 3/4 outputs.',
          'DESIGN.md §3 C01'),
+ 'C03': ('model_checking',
+         'explicit-state breadth-first search over operation histories of the real wallet on a real chain, deduplicated by canonical projection',
+         'BFS over every history (quick: depth 5 or the depth completed within the wall cap; thorough: depth 8 under a 40 min cap) of {init smallest/all, init-invoice, lock, receive, finalize, cancel, post, mine, refresh} on two slate slots of a wallet with three mature outputs, every step a call of the real libwallet API against a real grin chain. Invariant in every state: input sets of live TxSent entries (from stored context, stored tx file and the harness lock record) are pairwise disjoint; postcondition: a repeated lock/receive/finalize is refused or changes nothing; refused steps change nothing.',
+         'Two slates, one account, three outputs; completed depth reported in evidence. State identity is a projection without timestamps/nonces.',
+         'DESIGN.md §3 C03'),
  'C19': ('model_checking',
          'exhaustive small-scope input enumeration of the real query path against a reference filter',
          'Every query of a stated finite space (all single fields, all pairs, full flag product, sort x order x limit x every single filter; thorough: all triples and pairs x sort/limit) is executed through owner::retrieve_txs on a real LMDB wallet holding two discriminating 11-entry, 3-account logs and compared with a reference filter written from the field documentation (MUST <= result <= MAY, order, limit-as-prefix). Exhaustive within that scope; nothing sampled.',
